@@ -209,7 +209,22 @@ func cmdRun(args []string) int {
 	queue := jobs
 	results := make(chan jobOutcome)
 	running := 0
+	confirmedCrashes := 0
 	for len(queue) > 0 || running > 0 {
+		if confirmedCrashes >= 3 && len(queue) > 0 {
+			// Three cases have each exhausted their CPU budget (or killed the child) twice.
+			// The verdict cannot change any more; do not spend hours confirming more of them.
+			var skipped uint64
+			for _, j := range queue {
+				skipped += j.count
+			}
+			fmt.Printf("  stopping early after %d confirmed hangs/crashes; %d planned cases were not run\n", confirmedCrashes, skipped)
+			agg.Counters["cases_not_run_after_early_stop"] += int64(skipped)
+			queue = nil
+			if running == 0 {
+				break
+			}
+		}
 		for running < *workers && len(queue) > 0 {
 			j := queue[0]
 			queue = queue[1:]
@@ -247,6 +262,7 @@ func cmdRun(args []string) int {
 				Code: o.reason, Msg: fmt.Sprintf("child process ended (%s) on this case, twice; stderr tail:\n%s", o.reason, o.stderr)}
 			fillInput(&rec, cf, m)
 			if cf.property == "C04" && o.reason != "watchdog" && o.reason != "spawn" {
+				confirmedCrashes++
 				allViol = append(allViol, rec)
 				agg.NViolations++
 				agg.ViolByCode[o.reason]++
